@@ -117,18 +117,15 @@ class ExprMixin(object):
         y = z3.String('ax_y')
         if name == 'lower':
             self.global_axioms += [
-                z3.ForAll([x], STR_LOWER(STR_LOWER(x)) == STR_LOWER(x)),
-                z3.ForAll([x], z3.Length(STR_LOWER(x)) == z3.Length(x)),
+                FA([x], STR_LOWER(STR_LOWER(x)) == STR_LOWER(x), patterns=[STR_LOWER(STR_LOWER(x))]),
             ]
         elif name == 'upper':
             self.global_axioms += [
-                z3.ForAll([x], STR_UPPER(STR_UPPER(x)) == STR_UPPER(x)),
-                z3.ForAll([x], z3.Length(STR_UPPER(x)) == z3.Length(x)),
+                FA([x], STR_UPPER(STR_UPPER(x)) == STR_UPPER(x), patterns=[STR_UPPER(STR_UPPER(x))]),
             ]
         elif name == 'strip':
             self.global_axioms += [
-                z3.ForAll([x], STR_STRIP(STR_STRIP(x)) == STR_STRIP(x)),
-                z3.ForAll([x], z3.Length(STR_STRIP(x)) <= z3.Length(x)),
+                FA([x], STR_STRIP(STR_STRIP(x)) == STR_STRIP(x), patterns=[STR_STRIP(STR_STRIP(x))]),
             ]
 
     def str_lower(self, z):
@@ -238,7 +235,10 @@ class ExprMixin(object):
             vv = [self.coerce(x, vt) for x in vs]
             if any(x is None for x in vv):
                 vt = VAL
-                vv = [self.to_val_deep(s2, x) for x in vs]
+                vv = []
+                for x in vs:
+                    s2, y = self.to_val_deep(s2, x)
+                    vv.append(y)
             d = self.empty_dict(TDict(STR, vt))
             for a, b in zip(ks, vv):
                 d = self.dict_set(d, a.z, b)
@@ -246,11 +246,40 @@ class ExprMixin(object):
         return self.ev_many(list(e.keys) + list(e.values), st, k)
 
     def to_val_deep(self, st, v):
+        """inject any value into Val; lists / str-keyed dicts become JSON containers in the
+        $vlist / $vobj heaps (fresh ids) -> (st, Val SV)"""
         c = self.coerce(v, VAL)
         if c is not None:
-            return c
-        # containers become opaque python objects inside a Val
-        return SV(VAL, Val.VRef(z3.Int(fresh_name('pyobj'))))
+            return st, c
+        ty = v.ty
+        if isinstance(ty, TList) or (isinstance(ty, TTuple) and v.py is not None):
+            if isinstance(ty, TTuple):
+                items = []
+                for x in v.py:
+                    st, y = self.to_val_deep(st, x)
+                    items.append(y)
+                lv = self.mk_list(VAL, items)
+            elif not v.t:
+                lv = self.L_empty(VAL)
+            else:
+                i = z3.Int(fresh_name('i'))
+                st, ev = self.to_val_deep(st, self.L_at(v, i))
+                lv = SV(TList(VAL), [z3.Lambda([i], ev.z), v.t[1]])
+            st, lid = self.alloc(st, '$vlist')
+            st = self.write_field(st, lid, '$vlist', 'seq', lv)
+            return st, SV(VAL, Val.VList(lid))
+        if isinstance(ty, TDict) and (ty.k in (STR, NONE)):
+            if not v.t:
+                dv = self.empty_dict(TDict(STR, VAL))
+            else:
+                k = z3.String(fresh_name('k'))
+                st, ev = self.to_val_deep(st, self.dict_get(v, k))
+                dv = SV(TDict(STR, VAL), [v.t[0], z3.Lambda([k], ev.z), v.t[-1]])
+            st, oid = self.alloc(st, '$vobj')
+            st = self.vobj_write(st, oid, dv)
+            return st, SV(VAL, Val.VObj(oid))
+        # anything else becomes an opaque python object inside a Val
+        return st, SV(VAL, Val.VRef(z3.Int(fresh_name('pyobj'))))
 
     def join_types(self, tys):
         tys = [t for t in tys]
@@ -352,6 +381,14 @@ class ExprMixin(object):
 
     def ev_UnaryOp(self, e, st):
         out = []
+        if self.spec_mode and isinstance(e.op, ast.Not):
+            saved = self.spec_pol
+            self.spec_pol = -saved
+            try:
+                v = self.ev1(e.operand, st)
+            finally:
+                self.spec_pol = saved
+            return self.ok(st, SV(BOOL, z3.Not(self.truthy(st, v))))
         for r in self.ev(e.operand, st):
             if r.exc is not None:
                 out.append(r)
@@ -517,6 +554,14 @@ class ExprMixin(object):
     # ------------------------------------------------------------------ comparisons
     def ev_Compare(self, e, st):
         operands = [e.left] + list(e.comparators)
+        if self.spec_mode and self.spec_pol != 0:
+            # operands of a comparison occur in both polarities
+            saved = self.spec_pol
+            self.spec_pol = 0
+            try:
+                return self.ev_Compare(e, st)
+            finally:
+                self.spec_pol = saved
 
         def k(s2, vals):
             conds = []
@@ -771,7 +816,9 @@ class ExprMixin(object):
                             lambda s2, vals: self.get_item(s2, vals[0], vals[1], e))
 
     def norm_index(self, idx, n):
-        """python index normalisation (negative counts from the end)"""
+        """python index normalisation (negative counts from the end); specs index raw"""
+        if self.spec_mode and not z3.is_int_value(idx):
+            return idx
         if z3.is_int_value(idx):
             return idx if idx.as_long() >= 0 else n + idx
         return z3.If(idx >= 0, idx, n + idx)
